@@ -81,12 +81,23 @@ def arg_forms(pairs, sel):
     keys = [k for k, _ in pairs]
     uniq = len(set(keys)) == len(keys)
     ident = all(k.isidentifier() for k in keys)
-    shapes = ["pairs", "split"]
+    shapes = ["pairs", "split", "gen", "iter", "map", "revrev"]
     if uniq:
-        shapes += ["dict", "odict"]
+        shapes += ["dict", "odict", "items"]
         if ident:
             shapes += ["kwargs", "mixed"]
     shape = shapes[sel % len(shapes)]
+    # one-shot iterables: whatever is iterated must be iterated once
+    if shape == "gen":
+        return ((p for p in list(pairs)),), {}
+    if shape == "iter":
+        return (iter(list(pairs)),), {}
+    if shape == "map":
+        return (map(tuple, [list(p) for p in pairs]),), {}
+    if shape == "revrev":
+        return (reversed(list(reversed(list(pairs)))),), {}
+    if shape == "items":
+        return (dict(pairs).items(),), {}
     if shape == "pairs":
         return (list(pairs),), {}
     if shape == "split":
@@ -100,6 +111,19 @@ def arg_forms(pairs, sel):
         return (), dict(pairs)
     h = len(pairs) // 2
     return (list(pairs[:h]),), dict(pairs[h:])
+
+
+def one_shot(l, sel):
+    """a list of keys handed over as list / tuple / iterator / generator / reversed / map / dict keys view"""
+    l = list(l)
+    k = sel % 7
+    if k == 0: return l
+    if k == 1: return tuple(l)
+    if k == 2: return iter(l)
+    if k == 3: return (x for x in l)
+    if k == 4: return reversed(l[::-1])
+    if k == 5: return map(str, l)
+    return dict.fromkeys(l).keys() if len(set(l)) == len(l) else iter(l)
 
 
 def sel_of(words):
@@ -200,7 +224,7 @@ def d_exec(objs, w):
         objs.append(cls[w[1]](o))
         return "ref %d" % (len(objs) - 1)
     if op == "newfk":
-        c = cls[w[1]].fromkeys(clist(w[2]), int(w[3]))
+        c = cls[w[1]].fromkeys(one_shot(clist(w[2]), sel_of(w)), int(w[3]))
         if type(c) is not cls[w[1]]:
             return "?fromkeys type " + type(c).__name__
         objs.append(c); return "ref %d" % (len(objs) - 1)
@@ -242,7 +266,7 @@ def d_exec(objs, w):
         a, kw = arg_forms(cpairs(w[2]), sel_of(w))
         o.create(*a, **kw); return "None"
     if op == "sift":
-        c = o.sift() if w[2] == "~" else o.sift(clist(w[2]))
+        c = o.sift() if w[2] == "~" else o.sift(one_shot(clist(w[2]), sel_of(w)))
         if type(c) is not type(o) or c is o:
             return "?sift type/identity"
         objs.append(c); return "ref %d" % (len(objs) - 1)
@@ -400,7 +424,7 @@ def m_exec(objs, w):
     if op == "poplistitem":
         k, l = o.poplistitem(last=bool(int(w[2]))); return "lp %s=%s" % (k, flist(l))
     if op == "fromkeys":
-        c = o.fromkeys(clist(w[2]), int(w[3]))
+        c = o.fromkeys(one_shot(clist(w[2]), sel_of(w)), int(w[3]))
         if type(c) is not modict:
             return "?fromkeys type"
         objs.append(c); return "ref %d" % (len(objs) - 1)
@@ -441,11 +465,11 @@ def s_consistency(objs, universe):
     return ""
 
 
-def s_arg(objs, a):
+def s_arg(objs, a, sel=None):
     if a[0] == "S":
         return obj(objs, a[1:])
     if a[0] == "L":
-        return clist(a[1:])
+        return clist(a[1:]) if sel is None else one_shot(clist(a[1:]), sel)
     raise BadOp()
 
 
@@ -454,7 +478,7 @@ def s_exec(objs, w):
     op = w[0]
     if op == "new":
         l = clist(w[1])
-        objs.append(oset(l) if l or sel_of(w) % 2 else oset()); return "ref %d" % (len(objs) - 1)
+        objs.append(oset(one_shot(l, sel_of(w))) if l or sel_of(w) % 2 else oset()); return "ref %d" % (len(objs) - 1)
     i = int(w[1])
     o = obj(objs, i)
 
@@ -499,7 +523,7 @@ def s_exec(objs, w):
             return newobj(a - o)                # list - oset -> oset.__rsub__
         return newobj(oset.__rsub__(o, a))
     if op in ("ior", "iand", "ixor", "isub"):
-        a = s_arg(objs, w[2])
+        a = s_arg(objs, w[2], sel_of(w))
         if op == "ior":
             o |= a
         elif op == "iand":
@@ -512,7 +536,7 @@ def s_exec(objs, w):
             return "?in-place operator returned another object"
         return "None"
     if op == "disjoint":
-        return fbool(o.isdisjoint(s_arg(objs, w[2])))
+        return fbool(o.isdisjoint(s_arg(objs, w[2], sel_of(w))))
     if op in ("le", "lt", "ge", "gt"):
         p = obj(objs, w[2])
         return fbool({"le": o <= p, "lt": o < p, "ge": o >= p, "gt": o > p}[op])
@@ -585,6 +609,66 @@ def _run_impl(case, out):
     return _run_impl2(case, out)
 
 
+BADKEYS = {"XL": lambda: ["x"], "XD": lambda: {"x": 1}, "XS": lambda: {"x"},
+           "XI": lambda: "zero"}      # XI: a non-integer INDEX (insert, modict pop / popitem)
+
+
+UNHASHABLE = ["XL", "XD", "XS"]
+
+
+def has_bad(w):
+    return any(t in BADKEYS or any(p.split("=")[0] in BADKEYS for p in t.split(",")) for t in w[1:])
+
+
+def bad_exec(kind, objs, w):
+    """a call with an UNHASHABLE key (list / dict / set): whatever it raises, the container must stay as it was
+    (a multi-item update may have stored the pairs before the bad one, like dict.update)"""
+    op = w[0]
+    o = obj(objs, w[1])
+    K = lambda t: BADKEYS[t]() if t in BADKEYS else t
+    if kind == "d":
+        if op == "set": o[K(w[2])] = int(w[3]); return "None"
+        if op == "del": del o[K(w[2])]; return "None"
+        if op == "getitem": return "v " + fint(o[K(w[2])])
+        if op == "has": return fbool(K(w[2]) in o)
+        if op == "get":
+            r = o.get(K(w[2])) if w[3] == "~" else o.get(K(w[2]), int(w[3]))
+            return "None" if r is None else "v " + fint(r)
+        if op == "append": o.append(K(w[2]), int(w[3])); return "None"
+        if op == "insert": o.insert(K(w[2]) if w[2] == "XI" else int(w[2]), K(w[3]), int(w[4])); return "None"
+        if op == "pop":
+            r = o.pop(K(w[2])) if w[3] == "~" else o.pop(K(w[2]), int(w[3]))
+            return "v " + fint(r)
+        if op == "setdefault": return "v " + fint(o.setdefault(K(w[2]), int(w[3])))
+        if op == "updatep":
+            o.update([(K(p.split("=")[0]), int(p.split("=")[1])) for p in clist(w[2])]); return "None"
+    if kind in ("m", "l"):
+        if op in ("set", "append"): o[K(w[2])] = int(w[3]); return "None"
+        if op == "del": del o[K(w[2])]; return "None"
+        if op == "getitem": return "v " + fint(o[K(w[2])])
+        if op == "has": return fbool(K(w[2]) in o)
+        if op == "replace": o.replace(K(w[2]), int(w[3])); return "None"
+        if op == "setdefault": return "v " + fint(o.setdefault(K(w[2]), int(w[3])))
+        if op == "update":
+            o.update([(K(p.split("=")[0]), int(p.split("=")[1])) for p in clist(w[2])]); return "None"
+        if kind == "m" and op == "pop" and w[3] == "~" and w[4] == "XI":
+            return "v " + fint(o.pop(w[2], index=K("XI")))
+        if kind == "m" and op == "popitem" and w[3] == "XI":
+            k, v = o.popitem(last=bool(int(w[2])), index=K("XI")); return "p %s=%s" % (k, fint(v))
+    if kind in ("s", "p"):
+        if op == "add": o.add(K(w[2])); return "None"
+        if op == "discard": o.discard(K(w[2])); return "None"
+        if op == "has": return fbool(K(w[2]) in o)
+        if kind == "s" and op == "remove": o.remove(K(w[2])); return "None"
+    raise BadOp()
+
+
+def bad_ref(kind, low):
+    """what the reference says for a call with an unhashable key: rejected (odict/modict/oset hash the key: TypeError;
+    lodict calls key.lower() first: AttributeError)"""
+    return "Rejected"
+
+
 def _run_impl2(case, out, universe=None):
     ex, dump, cons = KIND[case["kind"]]
     objs = []
@@ -592,11 +676,13 @@ def _run_impl2(case, out, universe=None):
     uni = universe if universe is not None else universe_of(case)
     for w in case["ops"]:
         try:
-            r = ex(objs, w)
+            r = bad_exec(case["kind"], objs, w) if has_bad(w) else ex(objs, w)
         except BadOp:
             out.append("bad-op"); continue
         except ERRS as e:
-            r = errname(e)
+            # which exception an unhashable key gets is CPython's business (dict.pop on an empty dict does not even hash
+            # it: KeyError): the property only says the call is rejected and changes nothing
+            r = "ERR Rejected" if has_bad(w) else errname(e)
         line = r + " | " + dump(objs)
         c = cons(objs, uni)
         out.append(line + (" " + c if c else ""))
@@ -660,6 +746,15 @@ def ref_d(ops):
                 r = new(RefD(w[1] == "lod", obj(objs, w[2]).items()))
             elif op == "newfk":
                 r = new(RefD(w[1] == "lod", [(k, int(w[3])) for k in clist(w[2])]))
+            elif has_bad(w):
+                o = obj(objs, w[1])
+                if op == "updatep" and not o.low:
+                    for p in clist(w[2]):                  # like dict.update: the pairs before the bad one are stored
+                        if p.split("=")[0] in BADKEYS: break
+                        o.set(p.split("=")[0], int(p.split("=")[1]))
+                elif op not in ("set", "del", "getitem", "has", "get", "append", "insert", "pop", "setdefault", "updatep"):
+                    raise BadOp()
+                raise Raise(bad_ref("d", o.low))
             else:
                 o = obj(objs, w[1]); r = "None"
                 if op == "set":
@@ -787,6 +882,15 @@ def ref_m(ops):
                 r = new(build(cpairs(w[1])))
             elif op == "newfrom":
                 r = new([[k, list(l)] for k, l in obj(objs, w[1])])
+            elif has_bad(w):
+                o = obj(objs, w[1])
+                if op == "update":
+                    for p in clist(w[2]):
+                        if p.split("=")[0] in BADKEYS: break
+                        add(o, p.split("=")[0], int(p.split("=")[1]))
+                elif op not in ("set", "append", "del", "getitem", "has", "replace", "setdefault", "pop", "popitem"):
+                    raise BadOp()
+                raise Raise("Rejected")
             else:
                 o = obj(objs, w[1]); r = "None"
                 e = find(o, w[2]) if len(w) > 2 and op not in ("popitem", "poplistitem", "fromkeys", "update", "updatefrom", "create", "eq", "ior", "or") else None
@@ -837,7 +941,7 @@ def ref_m(ops):
                     r = "v %d" % e[1][-1]
                 elif op == "pop":
                     if e:
-                        o.remove(e); r = "v %d" % py_index(e[1], int(w[4]))
+                        r = "v %d" % py_index(e[1], int(w[4])); o.remove(e)      # a bad index is rejected: nothing removed
                     elif w[3] == "~": raise Raise("KeyError")
                     else: r = "v %d" % int(w[3])
                 elif op == "poplist":
@@ -847,8 +951,9 @@ def ref_m(ops):
                     else: r = "v %d" % int(w[3])
                 elif op in ("popitem", "poplistitem"):
                     if not o: raise Raise("KeyError")
-                    k, l = o.pop(-1 if int(w[2]) else 0)
+                    k, l = o[-1 if int(w[2]) else 0]
                     r = "lp %s=%s" % (k, flist(l)) if op == "poplistitem" else "p %s=%d" % (k, py_index(l, int(w[3])))
+                    o.pop(-1 if int(w[2]) else 0)                                  # only after the index was accepted
                 elif op == "fromkeys":
                     r = new(build((k, int(w[3])) for k in clist(w[2])))
                 elif op == "update":
@@ -922,6 +1027,9 @@ def ref_s_apply(st, w):
         if op == "new":
             st.append(uniq(clist(w[1]))); return [("ref %d | %s" % (len(st) - 1, dump(st)), st)]
         i = int(w[1]); o = obj(st, i); r = "None"
+        if has_bad(w):
+            if op not in ("add", "discard", "has", "remove"): raise BadOp()
+            raise Raise("Rejected")
         if op == "add":
             if w[2] not in o: o.append(w[2])
         elif op == "discard":
@@ -1026,6 +1134,22 @@ def related_d(rng):
     return ops, n
 
 
+def with_bad_keys(rng, ops, keypos, pairsop):
+    """in ~15% of the sequences: after some calls, the same call again with an unhashable key (must be rejected and
+    change nothing), and an update whose 2nd..last pair has one"""
+    if rng.random() > 0.15:
+        return ops
+    out = []
+    for w in ops:
+        out.append(w)
+        if w[0] in keypos and rng.random() < 0.3:
+            b = list(w); b[keypos[w[0]]] = rng.choice(UNHASHABLE); out.append(b)
+        elif w[0] == pairsop and w[2] != "-" and rng.random() < 0.5:
+            ps = clist(w[2]); ps.insert(rng.randrange(len(ps) + 1), rng.choice(UNHASHABLE) + "=1")
+            out.append([w[0], w[1], sep(ps)])
+    return out
+
+
 def gen_d(rng, n_ops, keys=DKEYS, uni=False):
     ops, n = [], 0
     if not uni and rng.random() < 0.35:
@@ -1074,6 +1198,10 @@ def gen_d(rng, n_ops, keys=DKEYS, uni=False):
         elif n < 6: ops.append(["newfrom", rng.choice(["od", "lod"]), oi()]); n += 1
     if uni:
         return {"kind": "d", "ops": ops, "uni": True}
+    if rng.random() < 0.15:            # insert with a non-integer index: rejected, nothing written
+        ops = [x for w in ops for x in (([[w[0], w[1], "XI"] + w[3:]] if w[0] == "insert" and rng.random() < 0.5 else []) + [w])]
+    ops = with_bad_keys(rng, ops, {"set": 2, "del": 2, "getitem": 2, "has": 2, "get": 2, "append": 2, "insert": 3,
+                                   "setdefault": 2}, "updatep")   # not pop: dict.pop on an EMPTY dict returns/raises without hashing
     return sanitize({"kind": "d", "ops": ops})
 
 
@@ -1120,6 +1248,14 @@ def gen_m(rng, n_ops, keys=MKEYS):
         elif c < 38: ops.append(["create", oi(), rpairs(rng, keys)])
         elif c < 39: ops.append(["eq", oi(), oi()])
         elif n < 5: ops.append(rng.choice([["new", rpairs(rng, keys, 0, 6)], ["newfrom", oi()]])); n += 1
+    ops = with_bad_keys(rng, ops, {"set": 2, "append": 2, "del": 2, "getitem": 2, "has": 2, "replace": 2, "setdefault": 2}, "update")
+    if rng.random() < 0.15:            # a non-integer index: rejected, nothing popped
+        out = []
+        for w in ops:
+            if w[0] == "pop" and w[3] == "~" and rng.random() < 0.5: out.append(w[:4] + ["XI"])
+            elif w[0] == "popitem" and rng.random() < 0.5: out.append(w[:3] + ["XI"])
+            out.append(w)
+        ops = out
     return {"kind": "m", "ops": ops}
 
 
@@ -1265,7 +1401,10 @@ class CHECK(core.Check):
     N_SEARCH = 3000
     RULE = ("operation sequences (1..30 calls, up to 6 live objects) on odict+lodict / modict / oset over small key "
             "universes with case variants, values -3..9, arguments in every accepted shape (pairs, dict, odict, kwargs, "
-            "several positionals), including calls that must raise; 35% of the odict/lodict and 30% of the modict sequences start with "
+            "several positionals, and as one-shot iterables: generator, iter(), map, reversed, dict views — also for sift fields, "
+            "fromkeys keys, oset operands and constructors), including calls that must raise; in 15% of the sequences calls are "
+            "repeated with an UNHASHABLE key (list, dict, set) and updates get a pair with one: the call must raise and leave "
+            "the container as it was (a multi-pair update keeps the pairs before the bad one, like dict.update); 35% of the odict/lodict and 30% of the modict sequences start with "
             "objects that are permutations / equal-but-distinct copies / sub- and supersets / other spellings of one another and "
             "apply the by-reference calls (reorder, update, create, ==, construction, sift) between them; bounded-exhaustive: every sequence of <=2 (quick) / "
             "<=3 (thorough) calls from a reduced alphabet on a two-key universe. non-trivial = at least three calls "
@@ -1289,6 +1428,10 @@ class CHECK(core.Check):
                "modict value lists as objects (Model/ModictLists.lean, C39_modict_lists_separate, C39_modict_copy_independent): "
                "covers append/replace/del/clear/update/update(other)/copy/construction; the lists handed OUT to the caller "
                "(getlist, listitems, poplist return the stored list object itself) can of course be mutated by the caller: not modelled",
+               "unhashable keys are outside the key type of the models: such a call is answered by the driver as `raises (TypeError; "
+               "lodict: AttributeError from key.lower()), state as it was` and compared with the code; likewise a non-integer "
+               "index of insert / modict pop / popitem (fixes D39g, D39h); pairs of wrong arity are not generated (update with a "
+               "1-tuple raises ValueError after storing the earlier pairs, like dict.update)",
                "modict.update(itself) never returns (appends to the lists it iterates): excluded from the generated calls",
                "modict's inherited insert/reorder/sift(fields) store bare values instead of lists (broken for modict): "
                "not in the modelled call alphabet",
@@ -1312,7 +1455,9 @@ class CHECK(core.Check):
                   "stay well formed, a call changes only its receiver, copies are equal and independent (C39_heap_invariant, "
                   "C39_heap_history_invariant, C39_heap_frame, C39_copy_equal_independent); keys()/values()/items()/len() are one "
                   "consistent picture for every live odict/lodict after any history and for every well formed modict "
-                  "(C39_heap_views_consistent, C39_modict_views_consistent); with the per-key value lists of modict as objects, no two "
+                  "(C39_heap_views_consistent, C39_modict_views_consistent); a call that raises leaves the object exactly as it was "
+                  "(C39_rejected_op_is_noop, C39_lodict_rejected_is_noop, C39_oset_rejected_is_noop, C39_modict_rejected_is_noop, the "
+                  "last including IndexError of pop/popitem with an index outside the value list since fix D39g); with the per-key value lists of modict as objects, no two "
                   "modicts ever hold the same list and a call on one never changes another (C39_modict_lists_separate, "
                   "C39_modict_copy_independent); an oset round trip keeps elements and order (C39_oset_pickle_equal). The model is of /repo (which has the fixes "
                   "D23 x3, D39a-d) + fixes/D39e (odict.__reversed__/__or__/__ior__) and is tied to the code by running the same call "
@@ -1356,7 +1501,8 @@ class CHECK(core.Check):
                       ["updatep", i, "c=3,A=4"], ["setdefault", i, "B", "0"], ["sift", i, "A"], ["append", i, "A", "1"],
                       ["reorder", i, "0"], ["reorder", i, "1"], ["copy", i], ["pickle", i], ["pickle01", i], ["getitem", i, "A"],
                       ["has", i, "B"], ["ior", i, "c=7,A=8"], ["or", i, "B=1"], ["rev", i],
-                      ["reorder", i, "2"], ["reorder", i, "3"], ["update", i, "3"], ["create", i, "2"], ["eq", i, "2"],
+                      ["insert", i, "1", "XL", "5"], ["insert", i, "XI", "c", "5"], ["set", i, "XD", "5"], ["del", i, "XS"], ["updatep", i, "c=1,XL=2,d1=3"],
+                      ["sift", i, "a"], ["reorder", i, "2"], ["reorder", i, "3"], ["update", i, "3"], ["create", i, "2"], ["eq", i, "2"],
                       ["eq", i, "3"]]
         for d in range(1, depth + 1):
             if d == 3:
@@ -1366,7 +1512,8 @@ class CHECK(core.Check):
             for seq in itertools.product(sub, repeat=d):
                 yield sanitize({"kind": "d", "ops": pre + [list(x) for x in seq]})
         prem = [["new", "a=1,a=2,b=3"]]
-        alpham = [["set", "0", "a", "4"], ["set", "0", "c", "4"], ["del", "0", "a"], ["replace", "0", "a", "9"],
+        alpham = [["pop", "0", "a", "~", "XI"], ["pop", "0", "a", "~", "7"], ["popitem", "0", "1", "XI"], ["popitem", "0", "0", "4"],
+                  ["set", "0", "XL", "1"], ["update", "0", "c=1,XD=2,a=3"], ["set", "0", "a", "4"], ["set", "0", "c", "4"], ["del", "0", "a"], ["replace", "0", "a", "9"],
                   ["pop", "0", "a", "~", "0"], ["pop", "0", "c", "7", "-1"], ["poplist", "0", "b", "~"],
                   ["popitem", "0", "0", "-1"], ["popitem", "0", "1", "0"], ["poplistitem", "0", "0"],
                   ["setdefault", "0", "a", "5"], ["setdefault", "0", "c", "5"], ["get", "0", "a", "~", "-1"],
@@ -1377,7 +1524,7 @@ class CHECK(core.Check):
             for seq in itertools.product(alpham, repeat=d):
                 yield {"kind": "m", "ops": prem + [list(x) for x in seq]}
         pres = [["new", "a,b,c"], ["new", "c,d,a"]]
-        alphas = [["add", "0", "d"], ["add", "0", "a"], ["discard", "0", "b"], ["remove", "0", "d"], ["pop", "0", "1"],
+        alphas = [["add", "0", "XL"], ["discard", "0", "XS"], ["add", "0", "d"], ["add", "0", "a"], ["discard", "0", "b"], ["remove", "0", "d"], ["pop", "0", "1"],
                   ["pop", "0", "0"], ["or", "0", "S1"], ["and", "0", "S1"], ["sub", "0", "S1"], ["xor", "0", "S1"],
                   ["and", "0", "Ld,c,c,a"], ["rsub", "0", "Ld,c,d"], ["ior", "0", "S1"], ["iand", "0", "S1"],
                   ["ixor", "0", "S1"], ["isub", "0", "S1"], ["ixor", "0", "S0"], ["isub", "0", "Lc,c"], ["eq", "0", "S1"],
